@@ -132,10 +132,10 @@ Proof.
   right; right; right. repeat split; intro E; subst name; discriminate.
 Qed.
 
-Definition ok_res (r : pres expr) : Prop := match r with POk e _ => wff e | PFail _ => True end.
-Definition ok_res_x (r : pres exprs) : Prop := match r with POk e _ => wff_x e | PFail _ => True end.
-Definition ok_res_o (r : pres ofields) : Prop := match r with POk e _ => wff_o e | PFail _ => True end.
-Definition ok_res_a (r : pres afields) : Prop := match r with POk e _ => wff_a e | PFail _ => True end.
+Definition ok_res (r : pres expr) : Prop := match r with POk e _ => wff e | PFail _ _ => True end.
+Definition ok_res_x (r : pres exprs) : Prop := match r with POk e _ => wff_x e | PFail _ _ => True end.
+Definition ok_res_o (r : pres ofields) : Prop := match r with POk e _ => wff_o e | PFail _ _ => True end.
+Definition ok_res_a (r : pres afields) : Prop := match r with POk e _ => wff_a e | PFail _ _ => True end.
 
 Lemma num_result_ok : forall s, ok_res (num_result s).
 Proof.
